@@ -2,7 +2,7 @@
     conclusions say something (a bond really changes, a charge really moves, the additive branch is really taken, no
     ITS is really produced).  Intermediate values are top-level Definitions (no destructuring lets in statements). *)
 From Coq Require Import List NArith ZArith Bool Lia.
-From SK Require Import lib.Tok lib.LGraph model.C03_Model proof.C03_Proof proof.C03_Glue proof.C03_Backward proof.C03_ExplicitH proof.C03_ExplicitShape proof.C03_Expand.
+From SK Require Import lib.Tok lib.LGraph model.C03_Model proof.C03_Proof proof.C03_Glue proof.C03_Backward proof.C03_ExplicitH proof.C03_ExplicitShape proof.C03_ExplicitTotal proof.C03_Expand proof.C03_Default proof.C03_Iso proof.C03_Skeleton.
 Import ListNotations.
 Local Open Scope Z_scope.
 
@@ -166,3 +166,35 @@ Proof.
   destruct ex_explicit_hyps as (_ & _ & _ & _ & _ & H6).
   refine (proj1 (explicit_h_shape ex_T_h ex_T_h' _ _ H6)). apply nodupb_NoDup. reflexivity.
 Qed.
+
+(** default mode on a template without explicit hydrogens (a keto-enol-like rule written with implicit counts) *)
+Definition ex_tpl_d : its :=
+  LG [(1%N, IN (at_ C 3 0) (at_ C 2 0) 0 None); (2%N, IN (at_ Oo 0 0) (at_ Oo 1 0) 0 None)] [(1%N, 2%N, (4, 2, 2))].
+Example ex_synrule_default_noH :
+  nodupb (node_ids ex_tpl_d) = true /\
+  forallb (fun p => negb (N.eqb (a_el (iG (snd p))) EL_H) && negb (N.eqb (a_el (iH (snd p))) EL_H)) (gnodes ex_tpl_d) = true /\
+  option_map (fun t => fst (fst t)) (synrule ex_tpl_d true) = Some (default_rc ex_tpl_d) /\
+  sumZ dH ex_tpl_d = 0 /\ option_map (fun a => (a_hc (iG a), a_hc (iH a))) (label (default_rc ex_tpl_d) 1%N) = Some (0, 0).
+Proof. vm_compute. repeat split; reflexivity. Qed.
+
+(** _explicit_h raises: an atom that loses a hydrogen (pair id 1) with no partner to take it *)
+Definition ex_T_crash : its := LG [(1%N, IN (at_ Oo 1 0) (at_ Oo 0 (-1)) 0 (Some [1%N]))] [].
+Example ex_explicitH_crash_iff : explicit_h ex_T_crash = None /\ pairs_okb ex_T_crash = false /\ pairs_okb ex_T_h = true.
+Proof. vm_compute. repeat split; reflexivity. Qed.
+
+Example ex_changed_bonds_iso : changed_bonds ex_T = [((1%N, 2%N), -2); ((1%N, 3%N), 2)] /\
+                               image_changed_bonds ex_m ex_rc = [((1%N, 2%N), -2); ((1%N, 3%N), 2)].
+Proof. vm_compute. split; reflexivity. Qed.
+
+(** default mode on a template with an explicit migrating hydrogen (O-H . N >> O . H-N): the H atom 2 and its two
+    bonds are stripped, the hydrogen change is kept as counts and as h_pairs *)
+Definition ex_tpl_x : its :=
+  LG [(1%N, same (at_ Oo 0 0)); (2%N, same (at_ EL_H 0 0)); (3%N, same (at_ Nn 0 0))]
+     [(1%N, 2%N, (2, 0, 2)); (2%N, 3%N, (0, 2, -2))].
+Definition ex_rc_s : its := match synrule ex_tpl_x true with Some t => fst (fst t) | None => LG [] [] end.
+Example ex_synrule_default_skeleton :
+  nodupb (node_ids ex_tpl_x) = true /\ option_map (fun t => fst (fst t)) (synrule ex_tpl_x true) = Some ex_rc_s /\
+  node_ids ex_rc_s = [1%N; 3%N] /\ gedges ex_rc_s = [] /\ is_H_i ex_tpl_x 2%N = true /\
+  option_map (fun a => (a_hc (iG a), a_hc (iH a), i_hp a)) (label ex_rc_s 1%N) = Some (1, 0, Some [1%N]) /\
+  option_map (fun a => (a_hc (iG a), a_hc (iH a), i_hp a)) (label ex_rc_s 3%N) = Some (0, 1, Some [1%N]).
+Proof. vm_compute. repeat split; reflexivity. Qed.
